@@ -744,6 +744,18 @@ func (env *specEnv) evalCall(e *SExpr) sval {
 			env.fail(e, "macstr needs a byte slice")
 		}
 		return sval{fv.hwaddrStr(env.cur, v.t), types.Typ[types.String]}
+	case "holds":
+		// holds(x.mu): this invocation holds the mutex field mu of object x (read or write) in the
+		// current state -- the engine's own record of Lock/RLock/Unlock calls (see deadlock.go)
+		if len(args) != 1 || args[0].Op != "field" {
+			env.fail(e, "holds needs a mutex field x.mu")
+		}
+		ov := env.eval(args[0].Args[0])
+		cur, have := env.cur.ghost[heldKey(ov.t, args[0].Name)]
+		if !have {
+			return boolVal(smt.False)
+		}
+		return boolVal(smt.Ne(cur, smt.IntLit(0)))
 	case "strcat":
 		// strcat(a, b): the Go string a + b (the engine's uninterpreted concatenation symbol)
 		a, b := env.eval(args[0]), env.eval(args[1])
